@@ -356,6 +356,9 @@ pub struct SubCheck {
     pub replay: fn(&Value) -> Verdict,
     /// Human description of generation + non-triviality rule.
     pub rule: &'static str,
+    /// Environment variable naming another build of this binary that must
+    /// execute the workers of this part (C12: build without a cargo feature).
+    pub exe_env: Option<&'static str>,
 }
 
 pub struct Property {
@@ -560,7 +563,18 @@ pub fn orchestrate(p: &Property, tier: Tier, only_sub: Option<&str>) -> i32 {
             let inflight = dir.join(format!("{}-{}.inflight", sub.name, j.shard));
             let _ = std::fs::remove_file(&out);
             let _ = std::fs::remove_file(&inflight);
-            let child = Command::new(&exe)
+            let worker_exe = match sub.exe_env {
+                None => exe.clone(),
+                Some(k) => match std::env::var(k) {
+                    Ok(p) if Path::new(&p).exists() => PathBuf::from(p),
+                    _ => {
+                        infra.push(format!("{}: ${} does not name a built binary; run through verif.sh", sub.name, k));
+                        next += 1;
+                        continue;
+                    }
+                },
+            };
+            let child = Command::new(&worker_exe)
                 .arg("worker")
                 .arg(p.id)
                 .arg(sub.name)
